@@ -6,7 +6,7 @@ from __future__ import annotations
 
 import copy
 
-from vf.harness.c29_cwlgen import dangling_steps, sources_of, walk_workflows
+from vf.harness.c29_cwlgen import dangling_steps, sources_of, unconnected, walk_workflows
 
 
 def _refs(wf):
@@ -168,7 +168,7 @@ def candidates(case, diverging_outputs=()):
 
 
 def _n_dangling(wf):
-    return sum(len(dangling_steps(w)) for _, w in walk_workflows(wf))
+    return len(unconnected(wf))
 
 
 def _single_link_nested(wf):
@@ -192,9 +192,10 @@ def guarded_with(case, diverging_outputs=()):
         if _single_link_nested(cand["wf"]) > base_s:
             continue
         if _n_dangling(cand["wf"]) > base_d:
-            for _, w in list(walk_workflows(cand["wf"])):
-                for n in dangling_steps(w):
-                    del w["steps"][n]
+            from vf.harness.c29_neutral import prune_unconnected
+            for _ in range(4):
+                if not prune_unconnected(cand):
+                    break
             cand = _drop_unused_inputs(cand)
         yield what, cand
 
